@@ -394,8 +394,9 @@ class ClassDiagram:
 
         Inheritance edges are preserved.
         """
-        # Rebuild a fresh diagram from the same classes to avoid mutating this instance
+        # Work on a copy of the diagram that owns its own graph to avoid mutating this instance
         result = copy(self)
+        result._dependency_graph = self._dependency_graph.copy()
         # Convenience locals
         g = result._dependency_graph
 
